@@ -360,6 +360,27 @@ func (w *Writer) WriteText(text string) {
 	_, _ = fmt.Fprint(w.tw, text)
 }
 
+// joinNodeText joins the node texts with infix. Blanks next to a line break between
+// two texts are dropped; the inside of a text is left untouched, it may be a multi-line
+// comment or a raw string.
+func joinNodeText(list []string, infix string) string {
+	var text string
+	for i, s := range list {
+		if i == 0 {
+			text = s
+			continue
+		}
+		if strings.HasPrefix(s, NewLine) {
+			text = strings.TrimRight(text, WhiteSpace) + s
+		} else if strings.HasSuffix(text, NewLine) {
+			text += strings.TrimLeft(s, WhiteSpace)
+		} else {
+			text += infix + s
+		}
+	}
+	return text
+}
+
 func (w *Writer) write(opt *option) {
 	if len(opt.nodes) == 0 {
 		return
@@ -390,9 +411,7 @@ func (w *Writer) write(opt *option) {
 		textList = append(textList, node.Format(opt.prefix))
 	}
 
-	text := strings.Join(textList, opt.infix)
-	text = strings.ReplaceAll(text, " \n", "\n")
-	text = strings.ReplaceAll(text, "\n ", "\n")
+	text := joinNodeText(textList, opt.infix)
 	if opt.rawText {
 		_, _ = fmt.Fprint(w.writer, text)
 		return
